@@ -34,6 +34,7 @@ type c16Config struct {
 	Chords  []dict.ChordDef `json:"chords"`
 	Attrs   []dict.AttrDef  `json:"attrs"`
 	HasAttr bool            `json:"has_attr_file"`
+	Split   bool            `json:"one_file_per_chord,omitempty"`
 	Path    string          `json:"path"`
 }
 
@@ -252,6 +253,9 @@ func c16UserEval(e *Env, c *c16Config) {
 			}
 			for _, uc := range c.Chords {
 				for _, look := range []string{uc.Name, uc.Meta.Display} {
+					if c16Ambiguous(c.Chords, look) {
+						continue
+					}
 					want, _ := rd.Resolve(look)
 					as, ok := mp.GetChordAttributes(look)
 					if !ok {
@@ -274,6 +278,10 @@ func c16UserEval(e *Env, c *c16Config) {
 		}()
 		return
 	}
+	if cli.TooManyHangs() {
+		e.R.NotExhaustive("stopped feeding the binary after 12 reproducible hangs")
+		return
+	}
 	// real binary
 	dir := filepath.Join(e.Scratch, fmt.Sprintf("dict%d", atomic.AddInt64(&c16Dir, 1)))
 	if err := os.MkdirAll(dir, 0o755); err != nil {
@@ -281,6 +289,13 @@ func c16UserEval(e *Env, c *c16Config) {
 	}
 	defer os.RemoveAll(dir)
 	cfg := writeCfg{ChordFiles: []string{writeTemp(dir, "chords.yml", chordYAML)}}
+	if c.Split {
+		// one --chord file per user chord, in the written order: the files together are one dictionary
+		cfg.ChordFiles = nil
+		for i, uc := range c.Chords {
+			cfg.ChordFiles = append(cfg.ChordFiles, writeTemp(dir, fmt.Sprintf("chords%d.yml", i), yamlOf([]dict.ChordDef{uc})))
+		}
+	}
 	if c.HasAttr {
 		cfg.AttrFiles = []string{writeTemp(dir, "attrs.yml", attrYAML)}
 	}
@@ -295,6 +310,9 @@ func c16UserEval(e *Env, c *c16Config) {
 	}
 	for _, uc := range c.Chords {
 		for _, look := range []string{uc.Name, uc.Meta.Display} {
+			if c16Ambiguous(c.Chords, look) {
+				continue
+			}
 			want, _ := rd.Resolve(look)
 			got, msg, _ := playedAbove("cli", look, cfg)
 			if msg != "" {
@@ -318,6 +336,28 @@ func c16UserEval(e *Env, c *c16Config) {
 	e.R.Outcome("consistent")
 }
 
+// c16Ambiguous: the look-up string is claimed by two different user chords (the statement
+// does not fix which one wins).
+func c16Ambiguous(cs []dict.ChordDef, _ string) bool {
+	// if any look-up string is claimed by two user chords, which notes a look-up yields is not
+	// defined by the statement (the implementation resolves a chord found by display symbol through
+	// its long name again): only the verdict and crash-freedom are judged for such dictionaries
+	for _, a := range cs {
+		for _, look := range []string{a.Name, a.Meta.Display} {
+			n := 0
+			for _, c := range cs {
+				if c.Name == look || c.Meta.Display == look {
+					n++
+				}
+			}
+			if n > 1 && look != "" {
+				return true
+			}
+		}
+	}
+	return false
+}
+
 func c16Kind(err error) string {
 	s := err.Error()
 	for _, k := range []string{"cyclic", "dangling attribute", "dangling extends", "unnamed", "neither"} {
@@ -329,7 +369,7 @@ func c16Kind(err error) string {
 }
 
 func runC16(e *Env) {
-	e.R.Rule = "built-ins complete: 46 look-ups played and compared with the conventional table, name = display, 67 attributes vs the English reading of their names, embedded list = generated list; user dictionaries, exhaustive small scope: n user chords (n <= 2 quick, <= 3 thorough on a reduced option set), each with name {fresh, unnamed}, extends {none, built-in by name, built-in by display, every user chord by name incl. itself, user chord by display, dangling}, attributes {none, built-in, user attribute, dangling}, optional user attribute file {absent, fresh, unnamed entry}, both file orders. distinct = distinct dictionary; non-trivial = every case (each compares a verdict or a resolution)"
+	e.R.Rule = "built-ins complete: 46 look-ups played and compared with the conventional table, name = display, 67 attributes vs the English reading of their names, embedded list = generated list; user dictionaries, exhaustive small scope: n user chords (n <= 2 quick, <= 3 thorough on a reduced option set), each with name {fresh, unnamed}, display {fresh, equal to another user chord's long name}, extends {none, built-in by name, built-in by display, every user chord by name incl. itself, user chord by display, dangling}, attributes {none, built-in, user attribute, dangling}, optional user attribute file {absent, fresh, unnamed entry}, both file orders. distinct = distinct dictionary; non-trivial = every case (each compares a verdict or a resolution)"
 	e.R.Assume("reference: conventional interval sets (absolute), English reading of attribute names (absolute), ref/dict loader with iterative extends resolution and explicit cycle/dangling detection (relative)")
 	e.R.Exclude("user entries that override a built-in name or display (the statement does not fix which definition wins)")
 	m, err := newModel(e)
@@ -409,30 +449,40 @@ func runC16(e *Env) {
 				cd.Meta.Display = disps[j]
 				cs = append(cs, cd)
 			}
-			attrFiles := []int{0, 1, 2}
-			if reduced {
-				attrFiles = []int{0}
+			variants := [][]dict.ChordDef{cs}
+			if n >= 2 && !reduced {
+				// the last chord's display symbol equals the first chord's long name: the first chord is then
+				// reachable by its display symbol only and must still be validated
+				sh := append([]dict.ChordDef{}, cs...)
+				sh[n-1].Meta.Display = names[0]
+				variants = append(variants, sh)
 			}
-			for _, af := range attrFiles {
-				for _, rev := range []bool{false, true} {
-					if rev && n == 1 {
-						continue
-					}
-					c := c16Config{Chords: append([]dict.ChordDef{}, cs...)}
-					if rev {
-						for a, b := 0, len(c.Chords)-1; a < b; a, b = a+1, b-1 {
-							c.Chords[a], c.Chords[b] = c.Chords[b], c.Chords[a]
+			for _, cs := range variants {
+				attrFiles := []int{0, 1, 2}
+				if reduced {
+					attrFiles = []int{0}
+				}
+				for _, af := range attrFiles {
+					for _, rev := range []bool{false, true} {
+						if rev && n == 1 {
+							continue
 						}
+						c := c16Config{Chords: append([]dict.ChordDef{}, cs...)}
+						if rev {
+							for a, b := 0, len(c.Chords)-1; a < b; a, b = a+1, b-1 {
+								c.Chords[a], c.Chords[b] = c.Chords[b], c.Chords[a]
+							}
+						}
+						switch af {
+						case 1:
+							c.HasAttr = true
+							c.Attrs = []dict.AttrDef{{Name: "UA", Degree: "#11"}}
+						case 2:
+							c.HasAttr = true
+							c.Attrs = []dict.AttrDef{{Name: "", Degree: "#11"}}
+						}
+						out = append(out, c)
 					}
-					switch af {
-					case 1:
-						c.HasAttr = true
-						c.Attrs = []dict.AttrDef{{Name: "UA", Degree: "#11"}}
-					case 2:
-						c.HasAttr = true
-						c.Attrs = []dict.AttrDef{{Name: "", Degree: "#11"}}
-					}
-					out = append(out, c)
 				}
 			}
 			j := 0
@@ -472,7 +522,7 @@ func runC16(e *Env) {
 				}
 			}
 		}
-		k := 8
+		k := 12
 		if e.Thorough {
 			k = 2
 		}
@@ -481,6 +531,13 @@ func runC16(e *Env) {
 			cc.Path = "cli"
 			c16UserEval(e, &cc)
 			atomic.AddInt64(&cliN, 1)
+			if len(cc.Chords) > 1 {
+				cs := cfgs[i]
+				cs.Path = "cli"
+				cs.Split = true
+				c16UserEval(e, &cs)
+				atomic.AddInt64(&cliN, 1)
+			}
 		}
 	})
 	e.R.AddPart(ev.Part{Name: "user-dictionaries", Enumerated: fmt.Sprintf("%d user dictionaries (n = 1, 2%s) in-process through chord.ParseChords/ParseAttributes + Builder.Build + GetChordAttributes; %d of them (all with an extends edge between user chords, i.e. every possible cycle, and a regular sample of the rest) through `crd write --chord F --attr G` and `crd info chord describe`", len(cfgs), map[bool]string{true: ", 3 on a reduced option set", false: ""}[e.Thorough], cliN), Executions: int64(len(cfgs)) + cliN, Exhaustive: true})
